@@ -16,6 +16,8 @@
   the panic that results when it is dropped: these are the values that would crash the real node.
 -/
 import RigoProofs.C09NoPanic
+import RigoProofs.C09RunChk
+import RigoProofs.C02Witness
 open Std
 
 namespace Rigo.C09
@@ -66,13 +68,72 @@ theorem usable_after_rejected {s : St} {h : Int} {tx : TxIn} (hS : StateOK s tru
     (hc : (handleTx s true h tx).2.code ≠ 0) : StateOK (handleTx s true h tx).1 true h :=
   StateOK_after_failed_deliver hS hc
 
-/-- The full statement — `StateOK` is preserved by every operation — is NOT proved here: the balance
-    and delegatee-power bounds are consequences of the global supply bound (C02 conservation) and of
-    the stake bookkeeping (C11), the limiter clause of BeginBlock's reset (needs `1 ≤ maxValidatorCnt`
-    and non-negative delegatee powers), the reward-height clause of the phase discipline. -/
+/-- The ONE-STEP form of "remains usable" — `StateOK` is preserved by every single transaction from every
+    reachable state — is FALSE (`usable_after_statement_false` below: `StateOK` bounds every balance by
+    2^62 RIGO and a transfer of one base unit can reach that bound exactly).  What holds is the RUN-level
+    form (`stateOK_along_run`, `stateOK_chk_along_run`): the bounds follow from the conserved supply. -/
 def usable_after_statement : Prop :=
   ∀ (g : Genesis) (s : St), Reachable g s → ∀ (exec : Bool) (h : Int), StateOK s exec h →
     ∀ tx : TxIn, StateOK (handleTx s exec h tx).1 exec h
+
+/-! ### "remains usable", at the level of runs
+
+`StateOK` is not an assumption on states: it is a consequence of hypotheses on the INPUTS of the history
+(`C02.GenesisSane`, the supply caps) and of the side conditions `RunOK1` (C02: blocks complete, slash
+ratio sane, unique unbonding keys, EVM oracle creates no value, withdrawn rewards ≤ W),
+`ParamsSaneAlong` (the active governance parameters stay within int64 / uint256 conversions — exactly the
+values for which the witnesses below show a panic) and, for the mempool view, `RewardsCapAlong`. -/
+
+/-- **stateOK_along_run** (DeliverTx path): after EVERY well-phased history from a sane genesis whose
+    supply (genesis total + rewards ever withdrawn) stays below 2^62 RIGO, the state satisfies `StateOK` for
+    the next height — the balance, delegatee-power, limiter and reward-height clauses are invariants of the
+    run (conservation C02, stake bookkeeping C11, BeginBlock's limiter reset, phase discipline). -/
+theorem stateOK_along_run {W : Int} {g : Genesis} (hs : C02.GenesisSane g) (hB : C09R.SupplyCap g W)
+    (ops : List Op) (p : Phase) (hph : phaseRun .idle ops = some p)
+    (hok : C02.RunOK1 W (initChain g) ops) (hpa : C09R.ParamsSaneAlong (initChain g) ops) :
+    StateOK (exec (initChain g) ops) true ((exec (initChain g) ops).lastHeight + 1) :=
+  C09R.stateOK_of_good hB (C09R.good_run hs hB ops p hph hok hpa)
+
+/-- inside a block the height in execution is the block's -/
+theorem stateOK_along_run_inBlock {W : Int} {g : Genesis} (hs : C02.GenesisSane g) (hB : C09R.SupplyCap g W)
+    (ops : List Op) (p : Phase) (hph : phaseRun .idle ops = some p)
+    (hok : C02.RunOK1 W (initChain g) ops) (hpa : C09R.ParamsSaneAlong (initChain g) ops)
+    {b : BlockCtx} (hb : (exec (initChain g) ops).blk = some b) :
+    StateOK (exec (initChain g) ops) true b.height :=
+  C09R.stateOK_inBlock hB (C09R.good_run hs hB ops p hph hok hpa) hb
+
+/-- **no_panic_deliver_run**: in the state reached by ANY such history, ANY next DeliverTx input —
+    undecodable, or decoded with arbitrary field values — is answered without a panic (the EVM oracle
+    result must be present for EVM-routed transactions: `OracleOK`). -/
+theorem no_panic_deliver_run {W : Int} {g : Genesis} (hs : C02.GenesisSane g) (hB : C09R.SupplyCap g W)
+    (ops : List Op) (p : Phase) (hph : phaseRun .idle ops = some p)
+    (hok : C02.RunOK1 W (initChain g) ops) (hpa : C09R.ParamsSaneAlong (initChain g) ops)
+    {b : BlockCtx} (hb : (exec (initChain g) ops).blk = some b) (tx : TxIn)
+    (hwf : DecodedWF tx ∨ tx.decodable = false) (ho : OracleOK (exec (initChain g) ops) true tx) :
+    (deliverTx (exec (initChain g) ops) tx).2.panic = "" :=
+  (no_panic_deliver hb hwf ⟨stateOK_along_run_inBlock hs hB ops p hph hok hpa hb, ho⟩).1
+
+/-- **stateOK_chk_along_run** (CheckTx path): the same for the MEMPOOL view, whose value is bounded by the
+    consensus view's at the last commit plus the withdrawable rewards (`RewardsCapAlong R`): CheckTx never
+    raises the value held in the mempool view (`C09R.cinv_step`). -/
+theorem stateOK_chk_along_run {W R : Int} {g : Genesis} (hs : C02.GenesisSane g) (hB : C09R.SupplyCapChk g W R)
+    (ops : List Op) (p : Phase) (hph : phaseRun .idle ops = some p)
+    (hok : C02.RunOK1 W (initChain g) ops) (hpa : C09R.ParamsSaneAlong (initChain g) ops)
+    (hra : C09R.RewardsCapAlong R (initChain g) ops) :
+    StateOK (exec (initChain g) ops) false ((exec (initChain g) ops).lastHeight + 1) := by
+  have hR : 0 ≤ R := by
+    have := C09R.rewardsCap_head hra; have := C09R.rsum_nonneg (initChain g).rewards.fin; omega
+  exact C09R.stateOK_chk_of hB (C09R.good_run hs (C09R.supplyCap_of_chk hB hR) ops p hph hok hpa)
+    (C09R.cinv_run hs hB ops p hph hok hpa hra)
+
+/-- **no_panic_check_run**: ANY CheckTx input at ANY point of such a history is answered without a panic. -/
+theorem no_panic_check_run {W R : Int} {g : Genesis} (hs : C02.GenesisSane g) (hB : C09R.SupplyCapChk g W R)
+    (ops : List Op) (p : Phase) (hph : phaseRun .idle ops = some p)
+    (hok : C02.RunOK1 W (initChain g) ops) (hpa : C09R.ParamsSaneAlong (initChain g) ops)
+    (hra : C09R.RewardsCapAlong R (initChain g) ops) (tx : TxIn)
+    (hwf : DecodedWF tx ∨ tx.decodable = false) :
+    (checkTx (exec (initChain g) ops) tx).2.panic = "" :=
+  (no_panic_check hwf ⟨stateOK_chk_along_run hs hB ops p hph hok hpa hra, fun h => by cases h⟩).1
 
 /-! ### non-vacuity: a state satisfying `StateOK` -/
 
@@ -102,6 +163,89 @@ example : StateOK sOK true 1 := by
     simp at hk'
   · intro _
     exact AddrOK_insert AddrOK_empty _
+
+/-! ### the one-step form of "remains usable" is false -/
+
+/-- genesis of the witness: two holders, each one unit below 2^62 RIGO (`stakeCap`); no validators.
+    The total supply (< 2^63 RIGO) even satisfies C02's `SupplyBound`. -/
+def gW : Genesis :=
+  { chainId := "w", params := pOK, holders := [(A, stakeCap - 1), (B, stakeCap - 1)], vals := [] }
+
+/-- A sends ONE base unit to B (fee 10) -/
+def txW : TxIn :=
+  { sigOk := true, from_ := A, to := B, amount := 1, gas := 1, price := 10, type := TRX_TRANSFER, hash := "w1" }
+
+theorem gW_fin (k : String) : (initChain gW).accts.fin[k]? =
+    if ledgerKey B = k then some { addr := B, bal := stakeCap - 1 }
+    else if ledgerKey A = k then some { addr := A, bal := stakeCap - 1 } else none := by
+  show ((({} : KMap Account).insert (ledgerKey A) { addr := A, bal := stakeCap - 1 }).insert (ledgerKey B)
+      { addr := B, bal := stakeCap - 1 })[k]? = _
+  rw [kmap_get_insert, kmap_get_insert]; simp
+
+theorem gW_stateOK : StateOK (initChain gW) true 1 := by
+  refine ⟨by unfold FeeSane; decide, by decide, by decide, ?_, ?_, ?_, ?_, ?_⟩
+  · intro k a hk
+    have hk' : (initChain gW).accts.fin[k]? = some a := hk
+    rw [gW_fin] at hk'
+    split at hk'
+    · simp at hk'; subst hk'; decide
+    · split at hk'
+      · simp at hk'; subst hk'; decide
+      · simp at hk'
+  · intro k d hk
+    have hk' : ({} : KMap Delegatee)[k]? = some d := hk
+    simp at hk'
+  · intro h3; exact absurd h3 (by decide)
+  · intro k r hk
+    have hk' : ({} : KMap Reward)[k]? = some r := hk
+    simp at hk'
+  · intro _
+    exact AddrOK_insert (AddrOK_insert AddrOK_empty { addr := A, bal := stakeCap - 1 }) { addr := B, bal := stakeCap - 1 }
+
+theorem gW_after : (handleTx (initChain gW) true 1 txW).2.code = 0 ∧
+    (handleTx (initChain gW) true 1 txW).1.accts.get true (ledgerKey B) = some { addr := B, bal := stakeCap } := by
+  decide +kernel
+
+/-- **`usable_after_statement` is false**: `StateOK` is not a one-step invariant.  In the genesis state
+    of `gW` (reachable, satisfies `StateOK`) the successful transfer of one base unit lifts B's balance
+    to exactly `stakeCap`. -/
+theorem usable_after_statement_false : ¬ usable_after_statement := by
+  intro h
+  have h1 := h gW (initChain gW) (Reachable.start gW) true 1 gW_stateOK txW
+  have h2 := h1.bal (ledgerKey B) _ gW_after.2
+  exact absurd h2 (by decide)
+
+
+/-! ### non-vacuity of the run-level theorems
+
+The four-block history `C02.Wit.HW` (transfer, CheckTx + DeliverTx of a delegation, a failing transaction,
+a reward withdrawal, an unstaking, a restart, a refund) from the genesis `C02.Wit.GW` meets every
+hypothesis of `stateOK_along_run` / `stateOK_chk_along_run` (W = 7 withdrawn, R = 10^20). -/
+
+instance decParamsSaneAlong : ∀ (ops : List Op) (s : St), Decidable (C09R.ParamsSaneAlong s ops)
+  | [], s => by unfold C09R.ParamsSaneAlong; infer_instance
+  | op :: ops, s => by
+      unfold C09R.ParamsSaneAlong
+      exact @instDecidableAnd _ _ _ (decParamsSaneAlong ops (step s op).1)
+
+instance decRewardsCapAlong (R : Int) : ∀ (ops : List Op) (s : St), Decidable (C09R.RewardsCapAlong R s ops)
+  | [], s => by unfold C09R.RewardsCapAlong; infer_instance
+  | op :: ops, s => by
+      unfold C09R.RewardsCapAlong
+      exact @instDecidableAnd _ _ _ (decRewardsCapAlong R ops (step s op).1)
+
+theorem wit_supplyCap : C09R.SupplyCapChk C02.Wit.GW 7 (10 ^ 20) := by
+  unfold C09R.SupplyCapChk; rw [C02.Wit.genesis_total]; decide
+theorem wit_paramsSane : C09R.ParamsSaneAlong (initChain C02.Wit.GW) C02.Wit.HW := by decide +kernel
+theorem wit_rewardsCap : C09R.RewardsCapAlong (10 ^ 20) (initChain C02.Wit.GW) C02.Wit.HW := by decide +kernel
+
+example : StateOK (exec (initChain C02.Wit.GW) C02.Wit.HW) false ((exec (initChain C02.Wit.GW) C02.Wit.HW).lastHeight + 1) :=
+  stateOK_chk_along_run C02.Wit.sane wit_supplyCap C02.Wit.HW .idle C02.Wit.phases
+    (C02.runOK1B_ok 7 _ _ C02.Wit.checker) wit_paramsSane wit_rewardsCap
+
+example : StateOK (exec (initChain C02.Wit.GW) C02.Wit.HW) true ((exec (initChain C02.Wit.GW) C02.Wit.HW).lastHeight + 1) :=
+  stateOK_along_run C02.Wit.sane (C09R.supplyCap_of_chk wit_supplyCap (by decide)) C02.Wit.HW .idle C02.Wit.phases
+    (C02.runOK1B_ok 7 _ _ C02.Wit.checker) wit_paramsSane
 
 /-! ### witnesses: what happens when a conjunct of `StateOK` (or `DecodedWF`) is dropped -/
 
